@@ -58,12 +58,16 @@ CTX = {
         ("[V]", "[M]", F(1), ("k", True), {"gram": 1, "second": 1, "meter": -1}),
         ("[L]", "[T]", F(1, 5), None, {"second": 1, "meter": -1}),
         ("[T]", "[M]", F(2), None, {"gram": 1, "second": -1})],
-        redefs=[("yard", F(2), {"foot": 1})]),
+        # minute is redefined by rb as well (30 s): the two nesting orders of rb and rc must differ
+        redefs=[("yard", F(2), {"foot": 1}), ("minute", F(45), {"second": 1})]),
     "rd": dict(defaults={}, rules=[("[M]", "[L]", F(7), None, {"meter": 1, "gram": -1})],
                redefs=[("yard", F(4), {"foot": 1}), ("foot", F(2), {"second": 1}), ("minute", F(20), {"second": 1})]),
     # invalid redefinition whose failure is not a ValueError: "laps" has two readings, so
     # _redefine trips `assert len(candidates_no_prefix) == 1` (AssertionError)
     "re": dict(defaults={}, rules=[], redefs=[("yard", F(5), {"foot": 1}), ("laps", F(3), {"lap": 1})]),
+    # a second redefinition-only context in conflict with rb (minute): without parameters, so the
+    # two nesting orders [rb, rf] and [rf, rb] consist of the very same parameterised contexts
+    "rf": dict(defaults={}, rules=[], redefs=[("minute", F(45), {"second": 1}), ("yard", F(7, 2), {"foot": 1})]),
     "rs": dict(defaults={"k": F(2)}, rules=[("[F]", "[L]", F(1), ("k", True), {"meter": 1, "hertz": -1})],
                redefs=[]),
 }
@@ -474,10 +478,11 @@ class Oracle:
         self.pristine = pristine
         self.probes = probes
 
-    def report(self, key, desc):
-        if not self.tainted:
+    def report(self, key, desc, taint=True):
+        if not self.tainted and key not in [f[0] for f in self.found]:
             self.found.append((key, desc, self.n))
-        self.tainted = True      # later deviations of this run are consequences
+        if taint:
+            self.tainted = True  # later deviations of this run are consequences
 
     def _compare_answers(self, before, ndefs_before, after, what):
         for p, a, b in zip(self.probes, before, after):
@@ -523,7 +528,8 @@ class Oracle:
                 for n in ctx0:
                     if ctx0[n][0] != ctx1[n][0]:
                         self.report(f"shared-context-modified:funcs-keys:{n}",
-                                    f"activating {list(op[1])} rewrote the rule endpoints of Context {n}: {ctx0[n][0]} -> {ctx1[n][0]}")
+                                    f"activating {list(op[1])} rewrote the rule endpoints of Context {n}: {ctx0[n][0]} -> {ctx1[n][0]}",
+                                    taint=False)   # does not derail the reference stack: keep checking this run
                     elif ctx0[n][1] != ctx1[n][1]:
                         self.report(f"shared-context-modified:defaults:{n}", f"activating {list(op[1])} changed the defaults of Context {n}")
         elif k in ("dis", "exit", "raise"):
@@ -559,6 +565,26 @@ class Oracle:
             # every context has been left: the answers must be those of the untouched registry
             self._compare_answers(self.pristine["answers"], 0, o1["answers"], "residue-at-empty")
 
+    def stack_probe(self, world, o1, r=0):
+        """Every answer depends only on the current stack (names and parameters, in order), not on
+        which combinations of contexts the registry has seen before: a fresh registry brought
+        directly to the same stack must answer the same.  Checked when at least two redefining
+        contexts are active and no unit has been defined by the user in this run."""
+        if self.tainted or self.ndefs or o1["answers"] is None:
+            return
+        if sum(n in REDEFINING for n in o1["active"]) < 2:
+            return
+        stack = [(c.name, tuple(sorted(c.defaults.items()))) for c in reversed(world.regs[r]._active_ctx.contexts)]
+        want = twin_answers(tuple(stack), tuple(self.probes))
+        if want is None:
+            return
+        for p, a, b in zip(self.probes, o1["answers"], want):
+            if a != b:
+                self.report(f"stack-determines-answers:{probe_name(p)}",
+                            f"with the active stack {[n for n, _ in reversed(stack)]} (newest first) {probe_name(p)} answers {a}; "
+                            f"a fresh registry brought to the same stack answers {b} (the answer depends on which combinations were seen before)")
+                return
+
     def base_probe(self, world, p, ans, r=0):
         """get_base_units asked while no context is active must give the untouched registry's answer"""
         if self.tainted or self.stack or (probe_units(p) & USERDEF):
@@ -570,6 +596,24 @@ class Oracle:
             self.report(f"exit-restores:{tag}:{uexpr(p[1]).replace(' ', '')}",
                         f"get_base_units({uexpr(p[1])}) outside every context answers {ans}, the untouched registry answers {want}"
                         + (" (get_root_units is right: the context-blind _base_units_cache serves a value computed inside a context)" if root_ok else ""))
+
+
+_TWIN = {}
+
+
+def twin_answers(stack, probes):
+    """answers of a fresh registry on which exactly `stack` (oldest first: (name, parameters)) was enabled"""
+    key = (stack, tuple(probe_name(p) + str(p[1]) for p in probes))
+    if key not in _TWIN:
+        w = World(False, fast=True)
+        try:
+            for name, kw in stack:
+                w.regs[0].enable_contexts(name, **dict(kw))
+            _TWIN[key] = [w.ask(0, p) for p in probes]
+        except Exception:
+            _TWIN[key] = None
+        w.close()
+    return _TWIN[key]
 
 
 BASE_PROBES = [("base", U(yard=1)), ("base", U(fpm=1))]
@@ -598,6 +642,7 @@ def run_sequence(ops, sweep=True, fast=False):
         out = w.do(0, op)
         ob1 = w.obs(sweep=sweep, ctx=ctxn)
         orc.step(op, out, ob0, ob1, ob0["ctx"], ob1["ctx"])
+        orc.stack_probe(w, ob1["regs"][0])
         if op[0] == "probe" and op[1][0] == "base" and out[0] == "ans":
             orc.base_probe(w, op[1], out[1])
         steps.append((out, ob1))
@@ -617,6 +662,7 @@ ALPHABET = {
     "mid": [("en", ("ra",), ()), ("en", ("rb",), ()), ("en", ("rc",), ()), ("en", ("rd",), ()),
             ("dis", None), ("dis", 1), ("with", ("rb",), ()), ("with", ("rc",), ()), ("exit",), ("raise",),
             ("probe", ("base", U(yard=1))), ("def", "smoot")],
+    "order": [("en", ("rb",), ()), ("en", ("rf",), ()), ("dis", None), ("with", ("rc",), ()), ("exit",)],
     "tiny": [("en", ("rb",), ()), ("dis", None), ("with", ("rc",), ()), ("exit",), ("def", "smoot")],
     "lean": [("en", ("ra",), ()), ("en", ("rb",), ()), ("en", ("rc",), ()),
              ("en", ("re",), ()), ("dis", None), ("with", ("rc",), ()), ("exit",), ("raise",),
@@ -776,12 +822,12 @@ def explore2_subtree(args):
 
 # ------------------------------------------------------------------ random long sequences
 def random_ops(rng, n):
-    names = ["ra", "rb", "rc", "rd", "re"]
+    names = ["ra", "rb", "rc", "rf", "rd", "re"]
     ops = []
     for _ in range(n):
         x = rng.random()
         if x < 0.28:
-            cs = tuple(rng.choice(names[:3] if rng.random() < 0.8 else names) for _ in range(1 if rng.random() < 0.8 else 2))
+            cs = tuple(rng.choice(names[:4] if rng.random() < 0.8 else names) for _ in range(1 if rng.random() < 0.8 else 2))
             kw = rng.choice([(), (), kwt(n=5), kwt(k=3), kwt(n=2, k=7)])
             ops.append((rng.choice(["en", "with"]), cs, kw))
         elif x < 0.40:
@@ -810,6 +856,7 @@ def run_random(args):
         out = w.do(0, op)
         ob1 = w.obs(sweep=rng.random() < 0.5, ctx=ctxn)
         orc.step(op, out, ob0, ob1, ob0["ctx"], ob1["ctx"])
+        orc.stack_probe(w, ob1["regs"][0])
         if op[0] == "probe" and op[1][0] == "base" and out[0] == "ans":
             orc.base_probe(w, op[1], out[1])
         nodes.append((op, out, ob1))
@@ -876,8 +923,8 @@ def detect_quirks(ck):
 
 # ------------------------------------------------------------------ the check
 PLAN = {
-    "quick": dict(single=[("full", 3), ("lean", 4), ("core", 5)], two=4, random=(150, 30)),
-    "thorough": dict(single=[("full", 4), ("mid", 4), ("lean", 5), ("core", 6), ("tiny", 7)], two=5, random=(1500, 30)),
+    "quick": dict(single=[("full", 3), ("lean", 4), ("core", 5), ("order", 5)], two=4, random=(150, 30)),
+    "thorough": dict(single=[("full", 4), ("mid", 4), ("lean", 5), ("core", 6), ("tiny", 7), ("order", 7)], two=5, random=(1500, 30)),
 }
 
 
@@ -996,7 +1043,7 @@ def run(ck):
     ck.rule = ("breadth-first exhaustive: every operation sequence over the alphabets "
                + ", ".join(f"{a}({len(ALPHABET[a])} ops) to length {d}" for a, d in plan["single"])
                + " (with_exit / raise_inside only while a with-block is open), each on a fresh Fraction registry built from "
-               f"{len(UNITS) + 1} generated definition lines with a pool of contexts ra(rules) rb(redefinitions) rc(both) rd(invalid redefinition: ValueError) re(invalid redefinition: AssertionError); "
+               f"{len(UNITS) + 1} generated definition lines with a pool of contexts ra(rules) rb(redefinitions) rc(both) rf(redefinitions in conflict with rb) rd(invalid redefinition: ValueError) re(invalid redefinition: AssertionError); "
                "after EVERY step the active names, len(_units.maps), len(_caches), open blocks, the shared Context objects and the answers to "
                f"{len(PROBES)} probes are compared with the Coq model inside Coq; two registries sharing the Context objects to length {plan['two']}; "
                f"{plan['random'][0]} random sequences of length {plan['random'][1]} with explicit probes. "
@@ -1013,8 +1060,9 @@ def run(ck):
             "C12_exit_restores / C12_block_restores": "guard q_rebuild_on_hit=false (F110); get_base_units additionally q_base_cache_ctx_blind=false (F7); C12_exit_restores_refuted, C12_exit_restores_base_refuted",
             "C12_failed_activation_atomic": "guard q_partial_activation=false (F6) and q_rebuild_on_hit=false; C12_failed_activation_atomic_refuted",
             "C12_shared_context_unmodified / C12_other_registry_unaffected": "guard q_rewrite_shared=false (F8); C12_shared_context_unmodified_refuted, C12_other_registry_refuted"},
+        "guarded by q_rebuild_on_hit=false, histories without define": ["C12_answers_determined_by_stack"],
         "repaired model (all switches off)": ["C12_exit_restores_repaired", "C12_failed_activation_atomic_repaired"],
-        "non-vacuity": ["C12_active_is_stack_nonvacuous", "C12_exit_restores_nonvacuous", "C12_failed_activation_nonvacuous"],
+        "non-vacuity": ["C12_active_is_stack_nonvacuous", "C12_exit_restores_nonvacuous", "C12_failed_activation_nonvacuous", "C12_answers_determined_nonvacuous"],
     }
     t0 = time.time()
     qk, notes, wfound = detect_quirks(ck)
